@@ -34,7 +34,10 @@ CHECKS["C05"] = {
             "returns or raises (induction over the argument list), a second different formal value is refused and the "
             "record unchanged, the same value is a no-op, other attributes accumulate as sets, typed literals of "
             "xsd:int/long (every integer, via DecimalString), string, anyURI, boolean and double (under the float oracle "
-            "law) are stored like plain values; xsd:dateTime round trip is only checked on samples (partial). Tie: "
+            "law) are stored like plain values; xsd:dateTime round trip is only checked on samples (partial). Since the repair "
+            "of finding C05-F1 in /repo (1eddd9a) the normal-form theorem holds for every call, also one naming prov:collection "
+            "(C05_single_valued_any_call, C05_second_value_refused_any_call: every formal attribute but the members of a "
+            "collection keeps at most one value). Tie: "
             "extracted model vs implementation on API programs (all 18 kinds, factories read from the AST, every argument "
             "representation), full state compared after every call; direct oracle on the implementation: normal form, "
             "no replaced/lost values after every call, entry-path table.",
@@ -84,7 +87,7 @@ CHECKS["C08"] = {
             "identity when no two records share kind and identifier; merge and conflict behaviour are computed Examples. "
             "The full merge specification (C08_spec_statement) is not yet proved: it is decided per run by the correspondence "
             "(model vs implementation on identifier-reuse programs) and an independent merge-specification oracle on the "
-            "implementation, incl. idempotence and source-unchanged (partial). Known finding C08-F1 (Membership).",
+            "implementation, incl. idempotence and source-unchanged (partial). Finding C08-F1 (Membership) is repaired in /repo (1eddd9a).",
     "design_ref": "DESIGN.md §5 C08, §10",
     "technique": "Coq proofs (frame, identity case) + differential correspondence and independent merge oracle",
 }
@@ -303,7 +306,7 @@ CHECKS["C08"]["text"] = (
     "reachable world); idempotence: the records unified() returns are a fixed point, and in the document it returns no "
     "container has anything left to merge; raise only on conflict: in every reachable container, if unifying raises, the "
     "exception is ProvException and two records of one group hold unequal values under one formal attribute. The converse "
-    "(every conflict raises) is false for memberships (known finding C08-F1) and is decided per run by the correspondence "
+    "(every conflict raises) is not proved (it was false for memberships: finding C08-F1, repaired in /repo) and is decided per run by the correspondence "
     "(model vs implementation on identifier-reuse programs) and an independent merge-specification oracle on the "
     "implementation, which also checks that the result shares no bundle object with the source and that writing to the "
     "result leaves the source alone.")
